@@ -37,6 +37,7 @@ type facts struct {
 	InitCalls    [][3]string         `json:"init_calls"`    // file, func, method called on the receiver
 	LockUse      [][3]string         `json:"lock_use"`      // file, func, Lock|RLock|none
 	SQLNid       [][3]string         `json:"sql_nid"`       // file, func, verdict for every raw SQL literal on keto_relation_tuples
+	BatchGuards  [][3]string         `json:"batch_guards"`  // file, func, comparison operator of len(…Tuples) against BatchCheckMaxBatchSize()
 	Misc         map[string]string   `json:"misc"`
 	// translated expressions: (file, func, Go text, Lean definition name); the Lean text is in leanDefs
 	DepthConds [][4]string `json:"depth_conds"`
@@ -284,6 +285,62 @@ func (f *facts) depth(repo, rel, depthVar string, callees map[string]bool) {
 			}
 			return true
 		})
+	}
+}
+
+// batchGuards: every `if len(X.Tuples) <op> …BatchCheckMaxBatchSize()` (the whole-batch rejection).
+func (f *facts) batchGuards(repo, rel string) {
+	af := f.parse(repo, rel)
+	for _, d := range af.Decls {
+		fd, ok := d.(*ast.FuncDecl)
+		if !ok || fd.Body == nil {
+			continue
+		}
+		name := funcName(fd)
+		ast.Inspect(fd.Body, func(n ast.Node) bool {
+			x, ok := n.(*ast.IfStmt)
+			if !ok {
+				return true
+			}
+			be, ok := x.Cond.(*ast.BinaryExpr)
+			if !ok || !strings.Contains(exprString(f.fset, be.Y), "BatchCheckMaxBatchSize()") {
+				return true
+			}
+			lhs := exprString(f.fset, be.X)
+			if !strings.HasPrefix(lhs, "len(") || !strings.HasSuffix(lhs, ".Tuples)") {
+				die("%s %s: unexpected left-hand side %s of the batch size test", rel, name, lhs)
+			}
+			f.BatchGuards = append(f.BatchGuards, [3]string{rel, name, be.Op.String()})
+			return true
+		})
+	}
+}
+
+// schemaDefaults: defaults of the limits in the configuration schema.
+func (f *facts) schemaDefaults(repo, rel string) {
+	raw, err := os.ReadFile(filepath.Join(repo, rel))
+	if err != nil {
+		die("%v", err)
+	}
+	var doc struct {
+		Properties struct {
+			Limit struct {
+				Properties map[string]struct {
+					Default *int64 `json:"default"`
+				} `json:"properties"`
+			} `json:"limit"`
+		} `json:"properties"`
+	}
+	if err := json.Unmarshal(raw, &doc); err != nil {
+		die("%s: %v", rel, err)
+	}
+	for key, lean := range map[string]string{"max_batch_check_size": "defaultMaxBatchCheckSize", "batch_check_max_parallelization": "defaultBatchParallelization",
+		"max_read_depth": "defaultMaxReadDepth", "max_read_width": "defaultMaxReadWidth"} {
+		p, ok := doc.Properties.Limit.Properties[key]
+		if !ok || p.Default == nil {
+			die("%s: no default for limit.%s", rel, key)
+		}
+		f.IntConsts[lean] = *p.Default
 	}
 }
 
@@ -646,6 +703,8 @@ func main() {
 	f.lockUse(*repo, "internal/driver/config/namespace_watcher.go")
 	f.lockUse(*repo, "internal/driver/config/opl_config_namespace_watcher.go")
 	f.lockUse(*repo, "internal/x/graph/graph_utils.go")
+	f.batchGuards(*repo, "internal/check/handler.go")
+	f.schemaDefaults(*repo, "embedx/config.schema.json")
 
 	// ---- emit
 	var b strings.Builder
@@ -700,6 +759,7 @@ func main() {
 	table3("initCalls", f.InitCalls)
 	table3("lockUse", f.LockUse)
 	table3("sqlNid", f.SQLNid)
+	table3("batchGuards", f.BatchGuards)
 	// translated depth conditions and depth arguments (regenerated model fragments)
 	b.WriteString("\n/-! Depth tests and depth arguments of the engines, translated from the Go expressions. -/\n")
 	for _, d := range f.leanDefs {
